@@ -95,87 +95,111 @@ fn announcement_packet(service: &str, inst: &Value, ttl: u32) -> Result<Vec<u8>,
     p.build_bytes_vec_compressed().map_err(|e| e.to_string())
 }
 
+
+/// the bytes a peer puts on the wire for one announcement of a generated history
+fn announcement_bytes(ann: &Value, service: &str) -> Result<Vec<u8>, String> {
+    Ok(match ann["kind"].as_str().unwrap() {
+        "instance" => announcement_packet(service, &ann["inst"], 120)?,
+        "instance+foreign" => {
+            // a third-party encoder: the peer's records in the answer section, records of foreign
+            // names in the additional section of the same packet
+            let own = announcement_packet(service, &ann["inst"], 120)?;
+            let mut p = Packet::parse(&own).map_err(|e| e.to_string())?.into_reply();
+            let src = Packet::parse(&own).map_err(|e| e.to_string())?;
+            for r in src.answers.iter().chain(src.additional_records.iter()) {
+                if !p.answers.contains(r) {
+                    p.answers.push(r.clone());
+                }
+            }
+            let foreign_host = Name::new_unchecked("host9.local").into_owned();
+            p.additional_records.push(ResourceRecord::new(foreign_host, CLASS::IN, 120, RData::A(A { address: 0x0a080808 })));
+            let other_inst = Name::new_unchecked("zz._svc2._tcp.local").into_owned();
+            p.additional_records.push(simple_mdns::conversion_utils::port_to_srv_record(&other_inst, 4444, 120));
+            p.additional_records.push(ResourceRecord::new(other_inst, CLASS::IN, 120, RData::A(A { address: 0x0a090909 })));
+            p.additional_records.push(ResourceRecord::new(Name::new(service).map_err(|e| e.to_string())?.into_owned(), CLASS::IN, 120,
+                RData::TXT(simple_dns::rdata::TXT::new().with_string("leak=1").map_err(|e| e.to_string())?.into_owned())));
+            p.build_bytes_vec_compressed().map_err(|e| e.to_string())?
+        }
+        "service-ptr" => {
+            let mut p = Packet::new_reply(1);
+            let target = Name::new(&format!("{}.{}", text(&ann["inst"]["name"]), service)).map_err(|e| e.to_string())?.into_owned();
+            p.answers.push(ResourceRecord::new(Name::new(service).map_err(|e| e.to_string())?.into_owned(), CLASS::IN, 120, RData::PTR(PTR(target))));
+            p.build_bytes_vec_compressed().map_err(|e| e.to_string())?
+        }
+        _ => {
+            let mut p = Packet::new_reply(1);
+            p.answers.push(ResourceRecord::new(Name::new_unchecked("zz.local").into_owned(), CLASS::IN, 120, RData::A(A { address: 0x0a000063 })));
+            p.answers.push(ResourceRecord::new(Name::new_unchecked("x_svc._tcp.local").into_owned(), CLASS::IN, 120, RData::A(A { address: 0x0a000064 })));
+            p.build_bytes_vec_compressed().map_err(|e| e.to_string())?
+        }
+    })
+}
+
+fn tokio_rt() -> tokio::runtime::Runtime {
+    tokio::runtime::Builder::new_multi_thread().worker_threads(2).enable_all().build().expect("tokio runtime")
+}
+
+/// one announcement history through into_records -> wire -> ingest (sync or async flavour) -> from_records
+fn discover_once(c: &Value, asynchronous: bool, rt: &tokio::runtime::Runtime) -> (Vec<Value>, Vec<Value>, bool) {
+    let watched = name_text(&c["watched"]);
+    let own = text(&c["own"]);
+    let r = guarded(|| -> Result<(Vec<Value>, Vec<Value>), String> {
+        // the discoverer's store, initialised exactly as ServiceDiscovery::new_with_scope does
+        let service_name = Name::new(&watched).map_err(|e| e.to_string())?.into_owned();
+        let own_full = Name::new(&format!("{own}.{watched}")).map_err(|e| e.to_string())?.into_owned();
+        let mut store = ResourceRecordManager::new();
+        store.add_authoritative_resource(ResourceRecord::new(service_name.clone(), CLASS::IN, 120, RData::PTR(PTR(own_full.clone()))));
+        let own_info = InstanceInformation::new(own.clone()).with_ip_address(Ipv4Addr::new(10, 9, 9, 9).into()).with_port(9);
+        for r in own_info.into_records(&own_full, 120).map_err(|e| e.to_string())? {
+            store.add_authoritative_resource(r);
+        }
+        let (tx, rx) = std::sync::mpsc::channel();
+        let mut chan = Some(tx);
+        let (atx, mut arx) = tokio::sync::mpsc::channel(64);
+        let mut achan = Some(atx);
+        for (i, ann) in c["anns"].as_array().unwrap().iter().enumerate() {
+            let service = name_text(&ann["service"]);
+            let bytes = announcement_bytes(ann, &service)?;
+            let packet = Packet::parse(&bytes).map_err(|e| format!("own announcement does not parse: {e}"))?;
+            // alternate between the two ingest paths (with and without the on_discovery channel)
+            match (asynchronous, i % 2 == 0) {
+                (false, true) => add_response_to_resources(packet, &service_name, &own_full, &mut store, &mut chan),
+                (false, false) => add_response_to_resources(packet, &service_name, &own_full, &mut store, &mut None),
+                (true, true) => rt.block_on(simple_mdns::verif::add_response_to_resources_async(packet, &service_name, &own_full, &mut store, &mut achan)),
+                (true, false) => rt.block_on(simple_mdns::verif::add_response_to_resources_async(packet, &service_name, &own_full, &mut store, &mut None)),
+            }
+        }
+        let reported: std::collections::HashSet<InstanceInformation> = store
+            .get_domain_resources(&service_name, DomainResourceFilter::cached())
+            .filter_map(|rs| from_records(&service_name, rs))
+            .collect();
+        let mut notified: Vec<Value> = rx.try_iter().map(|i| instance_json(&i)).collect();
+        while let Ok(i) = arx.try_recv() {
+            notified.push(instance_json(&i));
+        }
+        Ok((reported.iter().map(instance_json).collect(), notified))
+    });
+    match r {
+        Ok(Ok((rep, n))) => (rep, n, false),
+        Ok(Err(why)) => {
+            eprintln!("discover pipeline could not be set up: {why}");
+            std::process::exit(2);
+        }
+        Err(_) => (vec![], vec![], true),
+    }
+}
+
 pub fn run_discover(a: &Args) {
     let mut out = Out::new(&a.out, a.shards);
     let mut st = Stats::default();
+    let rt = tokio_rt();
     for c in load_cases(a, 0) {
-        let watched = name_text(&c["watched"]);
-        let own = text(&c["own"]);
-        let r = guarded(|| -> Result<(Vec<Value>, Vec<Value>), String> {
-            // the discoverer's store, initialised exactly as ServiceDiscovery::new_with_scope does
-            let service_name = Name::new(&watched).map_err(|e| e.to_string())?.into_owned();
-            let own_full = Name::new(&format!("{own}.{watched}")).map_err(|e| e.to_string())?.into_owned();
-            let mut store = ResourceRecordManager::new();
-            store.add_authoritative_resource(ResourceRecord::new(service_name.clone(), CLASS::IN, 120, RData::PTR(PTR(own_full.clone()))));
-            let own_info = InstanceInformation::new(own.clone()).with_ip_address(Ipv4Addr::new(10, 9, 9, 9).into()).with_port(9);
-            for r in own_info.into_records(&own_full, 120).map_err(|e| e.to_string())? {
-                store.add_authoritative_resource(r);
-            }
-            let (tx, rx) = std::sync::mpsc::channel();
-            let mut chan = Some(tx);
-            for (i, ann) in c["anns"].as_array().unwrap().iter().enumerate() {
-                let service = name_text(&ann["service"]);
-                let bytes = match ann["kind"].as_str().unwrap() {
-                    "instance" => announcement_packet(&service, &ann["inst"], 120)?,
-                    "instance+foreign" => {
-                        // a third-party encoder: the peer's records in the answer section, records of foreign
-                        // names in the additional section of the same packet
-                        let own = announcement_packet(&service, &ann["inst"], 120)?;
-                        let mut p = Packet::parse(&own).map_err(|e| e.to_string())?.into_reply();
-                        let src = Packet::parse(&own).map_err(|e| e.to_string())?;
-                        for r in src.answers.iter().chain(src.additional_records.iter()) {
-                            if !p.answers.contains(r) {
-                                p.answers.push(r.clone());
-                            }
-                        }
-                        let foreign_host = Name::new_unchecked("host9.local").into_owned();
-                        p.additional_records.push(ResourceRecord::new(foreign_host.clone(), CLASS::IN, 120, RData::A(A { address: 0x0a080808 })));
-                        let other_inst = Name::new_unchecked("zz._svc2._tcp.local").into_owned();
-                        p.additional_records.push(simple_mdns::conversion_utils::port_to_srv_record(&other_inst, 4444, 120));
-                        p.additional_records.push(ResourceRecord::new(other_inst, CLASS::IN, 120, RData::A(A { address: 0x0a090909 })));
-                        p.additional_records.push(ResourceRecord::new(Name::new(&service).map_err(|e| e.to_string())?.into_owned(), CLASS::IN, 120,
-                            RData::TXT(simple_dns::rdata::TXT::new().with_string("leak=1").map_err(|e| e.to_string())?.into_owned())));
-                        p.build_bytes_vec_compressed().map_err(|e| e.to_string())?
-                    }
-                    "service-ptr" => {
-                        let mut p = Packet::new_reply(1);
-                        let target = Name::new(&format!("{}.{}", text(&ann["inst"]["name"]), service)).map_err(|e| e.to_string())?.into_owned();
-                        p.answers.push(ResourceRecord::new(Name::new(&service).map_err(|e| e.to_string())?.into_owned(), CLASS::IN, 120, RData::PTR(PTR(target))));
-                        p.build_bytes_vec_compressed().map_err(|e| e.to_string())?
-                    }
-                    _ => {
-                        let mut p = Packet::new_reply(1);
-                        p.answers.push(ResourceRecord::new(Name::new_unchecked("zz.local").into_owned(), CLASS::IN, 120, RData::A(A { address: 0x0a000063 })));
-                        p.answers.push(ResourceRecord::new(Name::new_unchecked("x_svc._tcp.local").into_owned(), CLASS::IN, 120, RData::A(A { address: 0x0a000064 })));
-                        p.build_bytes_vec_compressed().map_err(|e| e.to_string())?
-                    }
-                };
-                let packet = Packet::parse(&bytes).map_err(|e| format!("own announcement does not parse: {e}"))?;
-                // alternate between the two ingest paths (with and without the on_discovery channel)
-                if i % 2 == 0 {
-                    add_response_to_resources(packet, &service_name, &own_full, &mut store, &mut chan);
-                } else {
-                    add_response_to_resources(packet, &service_name, &own_full, &mut store, &mut None);
-                }
-            }
-            let reported: std::collections::HashSet<InstanceInformation> = store
-                .get_domain_resources(&service_name, DomainResourceFilter::cached())
-                .filter_map(|rs| from_records(&service_name, rs))
-                .collect();
-            let notified: Vec<Value> = rx.try_iter().map(|i| instance_json(&i)).collect();
-            Ok((reported.iter().map(instance_json).collect(), notified))
-        });
-        let (reported, notified, panicked) = match r {
-            Ok(Ok((rep, n))) => (rep, n, false),
-            Ok(Err(why)) => {
-                eprintln!("discover pipeline could not be set up: {why}");
-                std::process::exit(2);
-            }
-            Err(_) => (vec![], vec![], true),
-        };
-        st.case(c.to_string(), !reported.is_empty());
-        out.emit(json!({"ev": "Discover", "cls": format!("discover anns={}", c["anns"].as_array().unwrap().len()), "watched": c["watched"], "own": c["own"],
-            "anns": c["anns"], "reported": reported, "notified": notified, "panicked": panicked}));
+        for asynchronous in [false, true] {
+            let (reported, notified, panicked) = discover_once(&c, asynchronous, &rt);
+            st.case((c.to_string(), asynchronous), !reported.is_empty());
+            out.emit(json!({"ev": "Discover", "cls": format!("discover{} anns={}", if asynchronous { "-async" } else { "" }, c["anns"].as_array().unwrap().len()),
+                "watched": c["watched"], "own": c["own"], "anns": c["anns"], "reported": reported, "notified": notified, "panicked": panicked}));
+        }
     }
     for c in load_cases(a, 1) {
         let s = text(&c["s"]);
@@ -206,6 +230,10 @@ fn new_node() -> Node {
         store.add_authoritative_resource(r);
     }
     Node { store: Arc::new(RwLock::new(store)), service, full }
+}
+
+thread_local! {
+    static ASYNC_RT: tokio::runtime::Runtime = tokio::runtime::Builder::new_current_thread().enable_all().build().expect("tokio runtime");
 }
 
 fn outcome_of<T>(r: &Result<T, String>) -> &'static str {
@@ -263,7 +291,16 @@ fn handle(node: &Node, role: &str, d: &[u8]) -> Value {
             Ok(Ok(r)) => r,
             _ => break 'pipeline,
         };
-        if is_response && role == "discovery" {
+        if is_response && role == "discovery-async" {
+            let store = node.store.clone();
+            let (service, full) = (node.service.clone(), node.full.clone());
+            let r = guarded(move || {
+                let packet = Packet::parse(d).unwrap();
+                let mut guard = store.write().unwrap();
+                ASYNC_RT.with(|rt| rt.block_on(simple_mdns::verif::add_response_to_resources_async(packet, &service, &full, &mut guard, &mut None)));
+            });
+            steps.push(json!(["ingest-async", outcome_of(&r)]));
+        } else if is_response && role == "discovery" {
             let store = node.store.clone();
             let (service, full) = (node.service.clone(), node.full.clone());
             let r = guarded(move || {
@@ -401,7 +438,7 @@ pub fn run_datagram(a: &Args) {
         grams.push(("random".into(), b));
     }
     // sessions: hostile datagrams interleaved with valid traffic, against one node per role
-    for role in ["responder", "discovery", "resolver"] {
+    for role in ["responder", "discovery", "discovery-async", "resolver"] {
         let node = new_node();
         for (i, (cls, d)) in grams.iter().enumerate() {
             let mut e = handle(&node, role, d);
@@ -412,7 +449,7 @@ pub fn run_datagram(a: &Args) {
             out.emit(e);
             if i % 40 == 39 {
                 // the probe: valid traffic is still handled after the hostile datagrams
-                let mut e = handle(&node, role, if role == "responder" || role == "discovery" { &valid_query } else { &valid_response });
+                let mut e = handle(&node, role, if role != "resolver" { &valid_query } else { &valid_response });
                 let answered = e["reply"].as_array().map(|r| !r.is_empty()).unwrap_or(false);
                 e["ev"] = json!("Datagram");
                 e["cls"] = json!(format!("{role} probe answered={answered}"));
@@ -452,10 +489,25 @@ pub fn net_event(a: &Args, grams: &[(String, Vec<u8>)]) -> Value {
         tx.set_read_timeout(Some(Duration::from_millis(400))).map_err(|e| e.to_string())?;
         Ok((responder, discovery, tx))
     });
+    // the tokio flavours of the same services, on their own runtime
+    let rt = tokio_rt();
+    let aunique = format!("a{unique}");
+    let async_up = guarded(|| -> Result<(simple_mdns::async_discovery::SimpleMdnsResponder, simple_mdns::async_discovery::ServiceDiscovery), String> {
+        let _enter = rt.enter();
+        let mut r = simple_mdns::async_discovery::SimpleMdnsResponder::new(10);
+        rt.block_on(r.add_resource(ResourceRecord::new(Name::new_unchecked(&format!("{aunique}.local")).into_owned(), CLASS::IN, 10, RData::A(A { address: 0x0a000003 }))));
+        let d = simple_mdns::async_discovery::ServiceDiscovery::new(InstanceInformation::new(format!("me{aunique}")).with_port(9), &format!("_{aunique}._tcp.local"), 60)
+            .map_err(|e| e.to_string())?;
+        Ok((r, d))
+    });
+    let async_services = match async_up {
+        Ok(Ok(x)) => Some(x),
+        _ => None,
+    };
     let (responder, discovery, tx) = match setup {
         Ok(Ok(x)) => x,
-        Ok(Err(why)) => return json!({"ev": "NetRun", "cls": "net inconclusive", "sent": 0, "panics": [], "usable": "inconclusive", "answered": "inconclusive", "answered_discovery": "inconclusive", "note": why}),
-        Err(at) => return json!({"ev": "NetRun", "cls": "net setup", "sent": 0, "panics": [at], "usable": "inconclusive", "answered": "inconclusive", "answered_discovery": "inconclusive", "note": "panic during setup"}),
+        Ok(Err(why)) => return json!({"ev": "NetRun", "cls": "net inconclusive", "sent": 0, "panics": [], "usable": "inconclusive", "answered": "inconclusive", "answered_discovery": "inconclusive", "answered_async": "inconclusive", "answered_async_discovery": "inconclusive", "async_usable": "inconclusive", "note": why}),
+        Err(at) => return json!({"ev": "NetRun", "cls": "net setup", "sent": 0, "panics": [at], "usable": "inconclusive", "answered": "inconclusive", "answered_discovery": "inconclusive", "answered_async": "inconclusive", "answered_async_discovery": "inconclusive", "async_usable": "inconclusive", "note": "panic during setup"}),
     };
     std::thread::sleep(Duration::from_millis(300));
     let target = "224.0.0.251:5353";
@@ -481,8 +533,12 @@ pub fn net_event(a: &Args, grams: &[(String, Vec<u8>)]) -> Value {
     };
     let rname = format!("{unique}.local");
     let sname = format!("_{unique}._tcp.local");
+    let arname = format!("{aunique}.local");
+    let asname = format!("_{aunique}._tcp.local");
     let before_responder = probe(&rname, simple_dns::TYPE::A.into(), 0x7701, 3);
     let before_discovery = probe(&sname, simple_dns::QTYPE::ANY, 0x7702, 3);
+    let before_aresponder = async_services.is_some() && probe(&arname, simple_dns::TYPE::A.into(), 0x7711, 3);
+    let before_adiscovery = async_services.is_some() && probe(&asname, simple_dns::QTYPE::ANY, 0x7712, 3);
     let mut sent = 0u64;
     for (i, (_, d)) in grams.iter().enumerate() {
         if d.len() <= 9000 && tx.send_to(d, target).is_ok() {
@@ -495,9 +551,13 @@ pub fn net_event(a: &Args, grams: &[(String, Vec<u8>)]) -> Value {
     std::thread::sleep(Duration::from_millis(500));
     let after_responder = probe(&rname, simple_dns::TYPE::A.into(), 0x7703, 6);
     let after_discovery = probe(&sname, simple_dns::QTYPE::ANY, 0x7704, 6);
+    let after_aresponder = before_aresponder && probe(&arname, simple_dns::TYPE::A.into(), 0x7713, 6);
+    let after_adiscovery = before_adiscovery && probe(&asname, simple_dns::QTYPE::ANY, 0x7714, 6);
     // control: if a probe went unanswered, is the network still delivering?  A fresh responder must answer.
     let mut control = true;
-    if (before_responder && !after_responder) || (before_discovery && !after_discovery) {
+    if (before_responder && !after_responder) || (before_discovery && !after_discovery)
+        || (before_aresponder && !after_aresponder) || (before_adiscovery && !after_adiscovery)
+    {
         let cname = format!("c{unique}.local");
         let mut fresh = SimpleMdnsResponder::new(10);
         fresh.add_resource(ResourceRecord::new(Name::new_unchecked(&cname).into_owned(), CLASS::IN, 10, RData::A(A { address: 0x0a000002 })));
@@ -509,6 +569,15 @@ pub fn net_event(a: &Args, grams: &[(String, Vec<u8>)]) -> Value {
     let verdict = |before: bool, after: bool| if !before { "inconclusive" } else if after { "yes" } else if control { "no" } else { "inconclusive" };
     let answered = verdict(before_responder, after_responder);
     let answered_discovery = verdict(before_discovery, after_discovery);
+    let answered_async = verdict(before_aresponder, after_aresponder);
+    let answered_async_discovery = verdict(before_adiscovery, after_adiscovery);
+    let async_usable = match &async_services {
+        Some((_, d)) => match guarded(|| rt.block_on(d.get_known_services()).len()) {
+            Ok(_) => "yes",
+            Err(_) => "no",
+        },
+        None => "inconclusive",
+    };
     let usable = match guarded(|| discovery.get_known_services().len()) {
         Ok(_) => "yes",
         Err(_) => "no",
@@ -516,5 +585,6 @@ pub fn net_event(a: &Args, grams: &[(String, Vec<u8>)]) -> Value {
     drop(responder);
     let panics: Vec<String> = FOREIGN_PANICS.lock().map(|v| v.clone()).unwrap_or_default();
     json!({"ev": "NetRun", "cls": "net responder+discovery", "sent": sent, "panics": panics, "usable": usable, "answered": answered,
-        "answered_discovery": answered_discovery, "note": ""})
+        "answered_discovery": answered_discovery, "answered_async": answered_async, "answered_async_discovery": answered_async_discovery,
+        "async_usable": async_usable, "note": ""})
 }
